@@ -26,4 +26,49 @@ PROPS = {
         "trusted_base": [],
         "assumptions": ["binary operations are given normalized unions, as the library documents"],
     },
+    "C06": {
+    "generators": [("c06a", 4000, 120000)],   # (generator, quick n, thorough n)
+    "modules": ["S2.ShapesBase", "S2.Shapes", "S2.Generated.ShapeAccessors", "S2.Locate", "S2.CellID"],
+    "rule": "shapes: every Shape type (Loop incl. empty/full/0/2-vertex, Polyline, LaxPolyline, PointVector, LaxLoop (both "
+            "constructors), LaxPolygon with 0,1,2,few,many loops incl. 0/1/2-vertex loops, Polygon empty/full/no-loop, disjoint and "
+            "nested loop sets of 1..7, 11,12,13,14,40 loops = both sides of maxLinearSearchLoops) with pairwise distinct vertices; "
+            "EVERY accessor is called for EVERY edge id, chain and (chain, offset), each call individually guarded (panic = '!'). "
+            "locate: sorted pairwise-disjoint cell lists (0,1,few,20-80 cells; siblings, curve neighbours, nested candidates pruned, "
+            "whole faces) x targets = index cells, their range ends +-1, ancestors at several levels, children / deep descendants, "
+            "curve neighbours, random cells, first/last leaf of the curve.  non-trivial = every c06shape line with >= 1 edge and every "
+            "c06loc/c06locp/c06seek line with a non-empty cell list; distinct = distinct (op, arguments)",
+    "nontrivial": lambda l: (l.startswith("c06shape") and " 0 0 - - - -" not in l and " 0 1 - " not in l)
+                            or (l.startswith("c06loc") or l.startswith("c06seek")) and not l.split(" ")[1] == "-",
+    "trusted_base": [
+        "translator_c06 (go/ast -> Lean) for the accessor arithmetic; every translated accessor is ALSO compared behaviourally (c06shape)",
+        "Polygon.Edge/Chain/ChainPosition, the constructors' bookkeeping (LaxPolygonFromPoints cumulativeVertices, "
+        "Polygon.initEdgesAndIndex) and sort.Search are hand-modelled: tied by the correspondence check only",
+        "hook s2/verif_export_c06a.go (VerifIteratorOverCells builds an iterator over a bare cell-id list)",
+    ],
+    "assumptions": [
+        "Locate theorems assume CellsOK (rangeMin c <= c <= rangeMax c, rangeMax c_i < rangeMin c_j for i<j, no sentinel) and, for "
+        "LocateCellID/Indexed, TargetOK (valid cells are nested or disjoint) — facts about valid cell ids proved in C01",
+        "Polygon contract is claimed for vertex counts Polygon.Validate accepts (a one-vertex loop only as the empty/full polygon); "
+        "a 0-vertex Loop inside a multi-loop polygon makes PolygonFromLoops itself divide by zero and is never generated",
+    ],
+    },
+    "C09": {
+        "generators": [("c09", 3000, 60000)],
+        "modules": ["S2.Codec.Prim", "S2.Codec.Points", "S2.Codec.Types", "S2.STUV", "S2.F64"],
+        "rule": "values of all nine encodable types built through the public constructors: points/caps/rects with special floats "
+                "(+-0, subnormal, huge, inf, NaN), arbitrary 64-bit cell ids, valid cells, cell unions (also 999999/1000000/1000001 cells), "
+                "polylines, loops and polygons of 1-5 loops (shells, holes, second component) whose vertices are cell centres of one level, "
+                "of mixed levels, partly snapped (10-90 %), unsnapped; rectangles of cell centres in (i,j) space at the corners/edges/centre "
+                "of every face (extreme si/ti), 60-71 vertices around the 64-vertex bound threshold, radii from 1e-6 to 1.4 rad (face changes); "
+                "raw compressed point lists at arbitrary levels; primitives (uvarint incl. overflow forms, zig-zag, interleave, coder streams, "
+                "(si,ti)->(pi,qi) at every level). non-trivial = a polygon/loop/polyline/point-list line with at least 3 vertices; "
+                "distinct = distinct (op, arguments). The share of compressed vs lossless polygon encodings (first byte 04 / 01) is reported.",
+        "nontrivial": lambda l: l.split(" ", 1)[0] in ("encpolygon", "encloop", "encloopof", "encpolyline", "ptsc") and l.count(";") >= 2,
+        "trusted_base": ["Loop.initBound / polygon bound recomputed by the compressed decoders (RectBounder, libm) are not modelled: the model "
+                         "carries `none` there and the property does not speak about bounds",
+                         "xyzToFaceSiTi / facePiQitoXYZ are modelled bit-exactly in the soft-float and compared on every generated vertex "
+                         "(ops snap, ptsc, encpolygon)"],
+        "assumptions": ["si,ti <= maxSiTi for the points handed to xyzToFaceSiTi (true for every finite non-zero vector: |u|,|v| <= 1)",
+                        "loop depths are non-negative and < 2^31 (set by the polygon constructors)"],
+    },
 }
